@@ -8,7 +8,7 @@
    The H3 clauses are covered by no theorem.
    This file holds only statements closed by [exact] and their Print Assumptions. *)
 From Coq Require Import QArith.
-From GV Require Import Prelude GeohashM GeohashP2 FloodM FloodP FloodP2 FloodP3.
+From GV Require Import Prelude GeohashM GeohashP2 FloodM FloodP FloodP2 FloodP3 FloodP4.
 Open Scope nat_scope.
 
 Definition pop_ok {cell} (pop : list cell -> option (cell * list cell)) : Prop :=
@@ -109,6 +109,17 @@ Theorem C12_niemeyer_flood_result : forall c len touch start fuel r,
   (forall x, In x r <-> nreach c touch (encode c start len) x) /\ NoDup r.
 Proof. exact niemeyer_flood_result. Qed.
 Print Assumptions C12_niemeyer_flood_result.
+
+(* the while-loop of _hash_polygon/_hash_linestring terminates on the model for every per-cell
+   test (the strings of the hasher's length over the alphabet are a finite universe closed under
+   _get_surrounding): with fuel above that universe's size the result exists and is exactly the
+   reachable set *)
+Theorem C12_niemeyer_flood_terminates : forall c, cfg_ok c -> forall len touch start fuel,
+  length (all_strs (charset c) len) + 2 <= fuel ->
+  exists r, niemeyer_flood c len start touch fuel = Some r /\
+            forall x, In x r <-> nreach c touch (encode c start len) x.
+Proof. exact niemeyer_flood_terminates. Qed.
+Print Assumptions C12_niemeyer_flood_terminates.
 
 (* hash_shape(point): the one cell (of the hasher's length) that contains the point *)
 Theorem C12_hash_point : forall c len p, cfg_ok c -> in_range c p ->
